@@ -1,7 +1,7 @@
 (* C11 -- audited obligations.  Every statement is for ALL widths >= 8, both signednesses, all operands, all rounding
    directions and every policy with check_overflow (definitions of the statement formers: Checked/Summary.v;
-   claim / directed: Checked/Result.v; the model of the code: Checked/Int.v, Ext.v; ..._partial: see the note in
-   Summary.v / IntRefuted.v -- the full statement is refuted by the faithful model, with a witness). *)
+   claim / directed: Checked/Result.v; the model of the code: Checked/Int.v, Ext.v;
+   Examples with the former counterexamples of the fixed defects: Checked/IntRefuted.v). *)
 From Coq Require Import ZArith.
 Require Import PPLV.Checked.Mach PPLV.Checked.Result PPLV.Checked.Int PPLV.Checked.IntArith PPLV.Checked.IntRefuted PPLV.Checked.Program
                PPLV.Checked.Summary.
